@@ -41,8 +41,8 @@ Record disk := mkDisk {
   d_pdat : option (fcontent (list nat));       (* pipes.dat: the pipe definitions *)
   d_jrnl : list (nat * (nat * list Z));        (* chunk files: partition -> (chunk id, flushed events) *)
   d_next : nat;                                (* not a file: the next fresh chunk id (chunk.NewId is time based) *)
-  d_prog : list (nat * fcontent nat)           (* pipes/pipe<name>.dat, one per forwarding pipe, keyed here by the pipe's
-                                                  destination partition: how many events of its source it has consumed.
+  d_prog : list (nat * fcontent nat)           (* pipes/pipe<name>.dat, one per forwarding pipe, keyed by the pipe's number:
+                                                  how many events of its source it has consumed.
                                                   Rewritten IN PLACE after every batch (persister.savePipeInfo) *)
 }.
 
@@ -53,7 +53,7 @@ Record mem := mkMem {
   m_hull : snap;                               (* cindex in memory *)
   m_pipes : list nat;
   m_cur : list (nat * nat);                    (* partition -> id of the chunk being written *)
-  m_prog : list (nat * nat)                    (* ppipe.partitions: destination -> position in the source; no entry: the
+  m_prog : list (nat * nat)                    (* ppipe.partitions: pipe -> position in the source; no entry: the
                                                   position is taken from the next write notification *)
 }.
 
@@ -63,9 +63,13 @@ Record fixes := mkFix { fx_sync : bool;       (* partition.Service.Shutdown sync
                         fx_pipes : bool;      (* pipes.dat saved (atomically) on every create / delete *)
                         fx_snap : bool;       (* cindex.dat is consumed (removed) by Init once it is loaded *)
                         fx_drop : bool;       (* deleteJournal removes the directory first, the tag-index record after it *)
-                        fx_prog : bool }.     (* not a repair: newPPipe ignores the error of loadPipeInfo (the code does) *)
-Definition code_fix : fixes := mkFix true true true true true true.
-Definition unrepaired : fixes := mkFix false false false false false true.
+                        fx_prog : bool;       (* not a repair: newPPipe ignores the error of loadPipeInfo (the code does) *)
+                        fx_reg : bool }.      (* the pipe definitions have a file of their own (registry.dat); off: they are in
+                                                 pipes.dat, which is also pipe<name>.dat of the pipe named "s" ([reg_twin]) *)
+Definition code_fix : fixes := mkFix true true true true true true true.
+Definition unrepaired : fixes := mkFix false false false false false true false.
+(* the pipe (by its number) whose progress file has the name the definitions' file used to have *)
+Definition reg_twin (n : nat) : bool := Nat.eqb n 5.
 
 Definition empty_disk : disk := mkDisk None None None None [] O [].
 Definition empty_mem : mem := mkMem [] [] [] [] [] [].
@@ -115,7 +119,7 @@ Inductive crash_at : disk -> list teff -> disk -> Prop :=
 
 (* ---- steps of a session ---- *)
 Inductive step := SWrite (p : nat) (ts : list Z) | SSync | SPipe (n : nat) | SDelPipe (n : nat)
-                | SDrop (p : nat) | SDrain (s t : nat).
+                | SDrop (p : nat) | SDrain (n s t : nat).
 
 Definition events_of (p : nat) (j : list (nat * (nat * list Z))) : list Z :=
   match lookup p j with Some (_, evs) => evs | None => [] end.
@@ -128,15 +132,19 @@ Definition flush_all (m : mem) (d : disk) : mem * disk :=
                                   end) (m_buf m) (d_jrnl d))
           (d_next d) (d_prog d)).
 
-Definition save_pipes (d : disk) (l : list nat) : disk :=
-  mkDisk (d_tdat d) (d_tbak d) (d_cdat d) (Some (Whole l)) (d_jrnl d) (d_next d) (d_prog d).
+(* persister.savePipes. Two objects, one file: while the definitions are kept in pipes.dat, writing them overwrites the
+   positions of the pipe named "s" (what is there then does not parse as positions) *)
+Definition clobber_twin (fx : fixes) (g : list (nat * fcontent nat)) : list (nat * fcontent nat) :=
+  if fx_reg fx then g else map (fun nc => if reg_twin (fst nc) then (fst nc, Torn O) else nc) g.
+Definition save_pipes (fx : fixes) (d : disk) (l : list nat) : disk :=
+  mkDisk (d_tdat d) (d_tbak d) (d_cdat d) (Some (Whole l)) (d_jrnl d) (d_next d) (clobber_twin fx (d_prog d)).
 Definition set_pipes (d : disk) (c : option (fcontent (list nat))) : disk :=
   mkDisk (d_tdat d) (d_tbak d) (d_cdat d) c (d_jrnl d) (d_next d) (d_prog d).
 
 (* the states a crash inside persister.savePipes can leave: nothing yet / done; written in place also: torn at any k *)
 Inductive pcrash_at (fx : fixes) (d : disk) (l : list nat) : disk -> Prop :=
 | pcrash_before : pcrash_at fx d l d
-| pcrash_done : pcrash_at fx d l (save_pipes d l)
+| pcrash_done : pcrash_at fx d l (save_pipes fx d l)
 | pcrash_torn : forall k, fx_pipes fx = false -> pcrash_at fx d l (set_pipes d (Some (Torn k))).
 
 (* what the clients were told about a partition: its flushed events, then the acknowledged ones still buffered *)
@@ -184,11 +192,11 @@ Definition do_step (fx : fixes) (md : mem * disk) (s : step) : mem * disk :=
   | SPipe n =>
       if mem_nat n (m_pipes m) then (m, d)
       else let ps := m_pipes m ++ [n] in
-           (mkMem (m_parts m) (m_buf m) (m_hull m) ps (m_cur m) (m_prog m), if fx_pipes fx then save_pipes d ps else d)
+           (mkMem (m_parts m) (m_buf m) (m_hull m) ps (m_cur m) (m_prog m), if fx_pipes fx then save_pipes fx d ps else d)
   | SDelPipe n =>
       if mem_nat n (m_pipes m) then
         let ps := filter (fun x => negb (Nat.eqb x n)) (m_pipes m) in
-        (mkMem (m_parts m) (m_buf m) (m_hull m) ps (m_cur m) (m_prog m), if fx_pipes fx then save_pipes d ps else d)
+        (mkMem (m_parts m) (m_buf m) (m_hull m) ps (m_cur m) (m_prog m), if fx_pipes fx then save_pipes fx d ps else d)
       else (m, d)                                (* NotFound: nothing changes, nothing is saved *)
   | SDrop p =>
       (* TRUNCATE removes every chunk, then deleteJournal: the directory is removed and TIndex.Delete takes the record out
@@ -198,19 +206,22 @@ Definition do_step (fx : fixes) (md : mem * disk) (s : step) : mem * disk :=
         (mkMem parts (remove_key p (m_buf m)) (m_hull m) (m_pipes m) (remove_key p (m_cur m)) (m_prog m),
          fold_left (fun d e => dapply fx e d) (drop_effs fx p parts) d)
       else (m, d)
-  | SDrain s t =>
-      (* the worker of a pipe from partition s to partition t has run, started or woken by a write to s that is the only
-         buffered data of s (the round of the harness), and caught up. Its position: the one in memory; none (new pipe, or
-         the progress file was missing or did not parse at start): onWriteEvent takes the start of the notified write, i.e.
-         the pipe begins after what is flushed now and what lies before is never forwarded. It writes to t - which registers
-         t, even when there is nothing to forward - the flushed events of s from its position on, once and in order, and
-         saves the new position: in memory and, in place, in its progress file *)
+  | SDrain n s t =>
+      (* the worker of the pipe number n from partition s to partition t has run, started or woken by a write to s that is
+         the only buffered data of s (the round of the harness), and caught up. Its position: the one in memory; none (new
+         pipe, or the progress file was missing or did not parse at start): onWriteEvent takes the start of the notified
+         write, i.e. the pipe begins after what is flushed now and what lies before is never forwarded. It writes to t -
+         which registers t, even when there is nothing to forward - the flushed events of s from its position on, once and
+         in order, and saves the new position: in memory and, in place, in its progress file - which, for the pipe named
+         "s" and while the definitions are kept in pipes.dat, is the file of the definitions: they do not parse any more *)
       if mem_nat s (m_parts m) then
         let src := events_of s (d_jrnl d) in
-        let pos := match lookup t (m_prog m) with Some n => n | None => length src end in
+        let pos := match lookup n (m_prog m) with Some k => k | None => length src end in
         let '(m1, d1) := do_write fx m d t (skipn pos src) in
-        (mkMem (m_parts m1) (m_buf m1) (m_hull m1) (m_pipes m1) (m_cur m1) (update t (length src) (m_prog m1)),
-         mkDisk (d_tdat d1) (d_tbak d1) (d_cdat d1) (d_pdat d1) (d_jrnl d1) (d_next d1) (update t (Whole (length src)) (d_prog d1)))
+        (mkMem (m_parts m1) (m_buf m1) (m_hull m1) (m_pipes m1) (m_cur m1) (update n (length src) (m_prog m1)),
+         mkDisk (d_tdat d1) (d_tbak d1) (d_cdat d1)
+                (if negb (fx_reg fx) && reg_twin n then Some (Torn O) else d_pdat d1)
+                (d_jrnl d1) (d_next d1) (update n (Whole (length src)) (d_prog d1)))
       else (m, d)
   end.
 
@@ -220,7 +231,7 @@ Definition run_steps (fx : fixes) (md : mem * disk) (l : list step) : mem * disk
 (* graceful: every Shutdown runs (pipes.dat, the journals are synced, cindex.dat); then exit *)
 Definition graceful (fx : fixes) (m : mem) (d : disk) : disk :=
   let '(m1, d1) := if fx_sync fx then flush_all m d else (m, d) in
-  mkDisk (d_tdat d1) (d_tbak d1) (Some (Whole (m_hull m1))) (Some (Whole (m_pipes m1))) (d_jrnl d1) (d_next d1) (d_prog d1).
+  mkDisk (d_tdat d1) (d_tbak d1) (Some (Whole (m_hull m1))) (Some (Whole (m_pipes m1))) (d_jrnl d1) (d_next d1) (clobber_twin fx (d_prog d1)).
 (* SIGKILL: nothing runs *)
 Definition killed (m : mem) (d : disk) : disk := d.
 
@@ -232,7 +243,11 @@ Inductive surgery :=
 | GCDrop | GCTorn (k : nat)
 | GCStale                  (* cindex.dat as the previous clean shutdown left it *)
 | GPTorn (k : nat) | GPDrop
-| GProgTorn (t : nat) (k : nat).   (* a crash inside the in-place rewrite of the progress file of the pipe to t *)
+| GProgTorn (t : nat) (k : nat)    (* a crash inside the in-place rewrite of the progress file of the pipe number t *)
+(* not crash-shaped (no saver of the code leaves them): files damaged from outside, to run the loaders' refusals *)
+| GDamageT (k : nat)               (* tindex.dat cut in place *)
+| GDamageP (k : nat)               (* pipes.dat cut in place *)
+| GRecordGone (p : nat).           (* the record of p taken out of tindex.dat, its directory untouched *)
 
 (* with the atomic savers the torn file is the .tmp one and there is no rename window: tindex.dat / pipes.dat stay whole.
    [GTTorn] after a stop is a start that dies inside the save ending Init; [GPTorn] at a session end that is not graceful
@@ -257,6 +272,12 @@ Definition apply_surgery (fx : fixes) (prev_cdat : option (fcontent snap)) (d : 
   | GProgTorn t k => match lookup t (d_prog d) with
                      | Some _ => mkDisk (d_tdat d) (d_tbak d) (d_cdat d) (d_pdat d) (d_jrnl d) (d_next d) (update t (Torn k) (d_prog d))
                      | None => d
+                     end
+  | GDamageT k => match d_tdat d with Some _ => set_tindex d (Some (Torn k)) (d_tbak d) | None => d end
+  | GDamageP k => match d_pdat d with Some _ => set_pipes d (Some (Torn k)) | None => d end
+  | GRecordGone p => match d_tdat d with
+                     | Some (Whole m) => set_tindex d (Some (Whole (filter (fun x => negb (Nat.eqb x p)) m))) (d_tbak d)
+                     | _ => d
                      end
   | GPDrop => if fx_pipes fx then d else mkDisk (d_tdat d) (d_tbak d) (d_cdat d) None (d_jrnl d) (d_next d) (d_prog d)
   end.
@@ -298,12 +319,13 @@ Definition prune (j : list (nat * (nat * list Z))) (s : snap) : snap :=
 
 (* newPPipe -> loadPipeInfo for every pipe: a progress file that does not parse gives an error, which newPPipe ignores:
    the pipe has no position then. ([fx_prog] off: the error is returned and pipe.Service.Init fails) *)
-Definition prog_init (fx : fixes) (d : disk) : option (list (nat * nat)) :=
+Definition prog_fold (fx : fixes) (g : list (nat * fcontent nat)) : option (list (nat * nat)) :=
   fold_right (fun tc acc => match acc, snd tc with
                             | Some l, Whole n => Some ((fst tc, n) :: l)
                             | Some l, Torn _ => if fx_prog fx then Some l else None
                             | None, _ => None
-                            end) (Some []) (d_prog d).
+                            end) (Some []) g.
+Definition prog_init (fx : fixes) (d : disk) : option (list (nat * nat)) := prog_fold fx (d_prog d).
 
 Definition start (fx : fixes) (d : disk) : option (mem * disk) :=
   match prog_init fx d with None => None | Some prog =>
